@@ -132,7 +132,8 @@ def p1(ctx):
 def p2(ctx):
     f = ctx.method('Cache', '__init__')
     res = {'layering': False, 'settings-replace': False, 'metadata-ignore': False, 'metadata-stripped': False,
-           'stored-read': False, 'metadata-always-seeded': True}
+           'stored-read': False, 'metadata-always-seeded': True, 'init-statements-retry': True}
+    plain_site = []
     stripped_other = False
     for p in ctx.paths(f, 'plain'):
         if p.kind == 'cut':
@@ -144,6 +145,15 @@ def p2(ctx):
         sel = [e for e in sql_events(tr, 'select', 'Settings')]
         if sel:
             res['stored-read'] = True
+        # __init__ runs with a zero lock timeout: a statement sent through the plain executor fails at once when the
+        # database is briefly busy - and for the stored-settings read that failure is taken for "no Settings table"
+        for e in sql_events(tr):
+            if e.d.get('flavour') != 'retry' and (e.fn is f or f.qual in e.stack):
+                direct = e.fn is f or all(q == f.qual or ctx.prog.funcs[q].name.startswith('_') for q in e.stack
+                                          if q in ctx.prog.funcs)
+                if direct:
+                    res['init-statements-retry'] = False
+                    plain_site.append(e)
         for e in sql_events(tr, 'insert', 'Settings'):
             # which loop encloses it?  find the last FOR it=1 before the event
             fors = [x for x in tr[:e.seq] if x.kind == 'FOR' and x.d['it'] == 1]
@@ -201,6 +211,10 @@ def p2(ctx):
         'settings-replace': 'settings are not written back with INSERT OR REPLACE',
         'metadata-ignore': 'the count/size/hits/misses rows are not inserted with OR IGNORE: every reopen would zero '
                            'the counters of an existing cache',
+        'init-statements-retry': 'Cache.__init__ sends a statement through the plain executor while its lock timeout '
+                                 'is zero: a briefly busy database raises OperationalError at once; for the read of the '
+                                 'stored settings the handler takes that for "no Settings table yet" and the stored '
+                                 'settings are overwritten with defaults',
         'metadata-stripped': 'counter names are not stripped from the merged mapping that is written back (defaults < '
                              'stored < arguments), before the write: a stored/explicit `count` would '
                              'overwrite the trigger-maintained value',
